@@ -9,6 +9,8 @@
      ifset(k)    if c == 1 { i = k; }            inc         i = i + 1;
      rdl(k)      print x[k]  (literal index)     rdc(k)      const K: i32 = k; print x[K]
      rdi         print x[i]                      rdo(k)      print x[id(k)]  (opaque index)
+     rdw(ty,v)   print x[wide(v)]  opaque index of type u32 / u64 / i64 with a value in [2^31, 2^32 + 1]: it is
+                 beyond every length whatever the width the implementation narrows it to
      rdni        print x[-i]                     defk(k) / rdk / rdnk   const K = k; print x[K]; print x[-K]
      wri(v)      x[i] = v                        wrl(k,v)    x[k] = v
      app(v)      append(&'x, v)   (dyn only)     len         print len(x)
@@ -45,6 +47,7 @@ Step(s, e, c) ==
       [] e.k = "ifset" -> IF c = 1 THEN [s EXCEPT !.i = e.v] ELSE s
       [] e.k = "inc"  -> [s EXCEPT !.i = @ + 1]
       [] e.k \in {"rdl", "rdc", "rdo"} -> Read(s, e.v)
+      [] e.k = "rdw"  -> [s EXCEPT !.oob = TRUE]     \* wide opaque index 2^31 .. 2^32+len: beyond every length
       [] e.k = "rdi"  -> Read(s, s.i)
       [] e.k = "rdni" -> Read(s, 0 - s.i)                    \* x[-i]: negation of a named value
       [] e.k = "defk" -> [s EXCEPT !.kc = e.v, !.hasK = TRUE]   \* const K: i32 = v;
@@ -78,6 +81,9 @@ Events(kind, es) ==
        \cup (IF s0.hasK THEN {[k |-> "rdk"], [k |-> "rdnk"]} ELSE {})
        \cup (IF has /\ kind # "str" THEN {[k |-> "wri", w |-> w]} ELSE {})
        \cup {[k |-> r, v |-> v] : r \in {"rdl", "rdc", "rdo"}, v \in Idx(len)}
+       \cup {[k |-> "rdw", ty |-> ty, big |-> b] : ty \in {"u32", "u64", "i64"},
+                 b \in {"2147483648", "3000000000", "4294967286"}}
+       \cup {[k |-> "rdw", ty |-> ty, big |-> b] : ty \in {"u64", "i64"}, b \in {"4294967297", "4294967296"}}
        \cup (IF kind # "str" THEN {[k |-> "wrl", v |-> v, w |-> w] : v \in {0 - len, -1, 0, len - 1, len}} ELSE {})
        \cup (IF kind = "dyn" /\ len < InitLen + 2 THEN {[k |-> "app", w |-> w]} ELSE {})
        \cup (IF kind # "fixed" THEN {[k |-> "len"]} ELSE {})
@@ -95,7 +101,7 @@ Abs(es) == <<[c \in {0, 1} |-> LET s == Run(Kind, InitLen, es, c) IN <<s.i, s.ha
 View == Abs(hist)
 Obs(es, c) == LET s == Run(Kind, InitLen, es, c) IN [c |-> c, out |-> s.out, oob |-> s.oob]
 CaseOf(es) == [kind |-> Kind, len0 |-> InitLen, events |-> es, runs |-> <<Obs(es, 0), Obs(es, 1)>>]
-IsAccess(e) == e.k \in {"rdl", "rdc", "rdo", "rdi", "rdni", "rdk", "rdnk", "wri", "wrl", "loop", "len"}
+IsAccess(e) == e.k \in {"rdw", "rdl", "rdc", "rdo", "rdi", "rdni", "rdk", "rdnk", "wri", "wrl", "loop", "len"}
 EmitAC == IF IsAccess(hist'[Len(hist')]) THEN PrintT("@@CASE " \o ToJson(CaseOf(hist'))) ELSE TRUE
 OobIsSticky == \A c \in {0, 1} : Run(Kind, InitLen, hist, c).oob => Len(hist) > 0
 =============================================================================
